@@ -6,6 +6,26 @@ and the attribute names to read.  Line 0 of the output observes the *original* b
 1+k what exists after k round trips of the wrapped object (plain `pickle` while it is a wrapper,
 cloudpickle once it arrived unwrapped).  The Lean driver predicts every line from line 0's
 observations; the oracle compares lines 1.. with line 0 as the property statement demands.
+
+A *history* case (`"hist"` instead of `"trips"`) plays a list of events on ONE live wrapper object:
+
+    ["M", mut]      the wrapped object changes state, through the wrapper (`via: "w"`: a call with a side effect,
+                    a method call through the forwarded attribute) or directly (`via: "d"`: on the object the
+                    caller still holds / `w._obj`: attribute set/del, closure cell, captured list/dict, module
+                    global, `__defaults__`, call, method)
+    ["P", src]      `src` = "live": the live wrapper is pickled (again) and the copy received; `src` = j: the j-th
+                    received copy is pickled and received
+    ["O", src]      observe the live wrapper / the j-th received copy once more
+    ["C", j, mut]   the j-th received copy changes state
+
+Line 0 observes the live wrapper; every event adds one line: the live wrapper after an "M", the new copy after a
+"P", the observed thing after an "O", the changed copy after a "C".  Observation never changes state (the sample
+calls leave `bump` at 0).  The oracle replays the same events on *bare* twins that are never wrapped nor pickled
+(a copy's twin is rebuilt from scratch by replaying the state changes its source had seen at the time of the
+pickling): every copy must behave like the original **at the time of that pickling** (plus its own later
+changes), whatever happened to the original or to other copies since; the live wrapper must behave like the
+object in its current state; layers/flags as keep_wrapper says.  The Lean driver plays the same events on the
+model's `Session` (`hstep`).
 """
 import hashlib
 import pickle
@@ -19,7 +39,9 @@ SAMPLES = [((2,), {}), ((3, 4), {}), ((5,), {"z": 7}), ((1, 2), {"z": 3}), ((0,)
 # pool of ordinary attribute names; index = the model's `Name.user i`
 POOL = ["p", "q", "r", "m", "tag", "meta", "n", "nope", "extra", "obj", "keep_wrapper", "_obj_", "x_obj"]
 RESERVED = ("_obj", "_keep_wrapper")
-FUNC_KINDS = ("lambda", "closure", "nested", "recursive", "dynmain", "dynmod")
+STATE_FUNC_KINDS = ("counter", "acc", "capdict")       # closures with mutable captured state
+DYN_KINDS = ("dynmain", "dynmod")
+FUNC_KINDS = ("lambda", "closure", "nested", "recursive", "dynmain", "dynmod") + STATE_FUNC_KINDS
 _dyn_counter = [0]
 
 
@@ -59,6 +81,39 @@ def build_func(spec):
                 return a + f(x - 1, y, z=z)
             return f
         f = make(a, b)
+    elif k == "counter":
+        # a nonlocal counter cell: `bump` is the side effect of a call (the sample calls leave it at 0)
+        def make(a, b):
+            n = 0
+
+            def f(x, y=0, *, z=0, bump=0):
+                nonlocal n
+                n += bump
+                return a * x + b + 7 * n + 10 * y + 100 * z
+            return f
+        f = make(a, b)
+    elif k == "acc":
+        # a captured list
+        def make(a, b):
+            seen = []
+
+            def f(x, y=0, *, z=0, bump=0):
+                if bump:
+                    seen.append(bump)
+                return a * x + b + sum((i + 2) * v for i, v in enumerate(seen)) + 10 * y + 100 * z
+            return f
+        f = make(a, b)
+    elif k == "capdict":
+        # a captured dict
+        def make(a, b):
+            state = {}
+
+            def f(x, y=0, *, z=0, bump=0):
+                if bump:
+                    state["n"] = state.get("n", 0) + bump
+                return a * x + b + sum((len(kk) + 2) * v for kk, v in sorted(state.items())) + 10 * y + 100 * z
+            return f
+        f = make(a, b)
     elif k in ("dynmain", "dynmod"):
         _dyn_counter[0] += 1
         name = "__main__" if k == "dynmain" else f"_verif_dyn_{_dyn_counter[0]}"
@@ -92,6 +147,11 @@ def build_class(spec):
             self.p = self.p + 1
             return self.p
 
+        def put(self, name, value):
+            """a method with arguments that updates the state"""
+            setattr(self, name, value)
+            return value
+
         def __getstate__(self):
             return dict(self.__dict__)
 
@@ -99,7 +159,8 @@ def build_class(spec):
             self.__dict__.update(st)
             self.__dict__["_gen"] = st.get("_gen", 0) + 1
 
-    def call(self, x, y=0, *, z=0):
+    def call(self, x, y=0, *, z=0, bump=0):
+        self.p = self.p + bump       # the side effect of a call (the sample calls leave `bump` at 0)
         return self.p * x + self.r + b + 10 * y + 100 * z
 
     if callvia == "base":
@@ -152,7 +213,8 @@ def original_at(case, k):
     return o
 
 
-def build_wrapped(case):
+def build_wrapped2(case):
+    """(the wrapped object, the bare object the caller still holds - None when a wrapped class built it)"""
     from loky import wrap_non_picklable_objects as W
     spec = case["obj"]
     layers = case["layers"]
@@ -162,13 +224,137 @@ def build_wrapped(case):
         assert layers and layers[0][0] == "k"
         v = W(cls, keep_wrapper=bool(layers[0][1]))(*args, **kw)
         rest = layers[1:]
+        held = None
     else:
-        v = build_original(case)
+        v = held = build_original(case)
         rest = layers
     for kind, keep in rest:
         assert kind == "n"
         v = W(v, keep_wrapper=bool(keep))
-    return v
+    return v, held
+
+
+def build_wrapped(case):
+    return build_wrapped2(case)[0]
+
+
+# ------------------------------------------------------------------ state changes (history cases)
+
+def core_of(x):
+    """the bare object at the bottom of a stack of wrappers (through the instance dicts, not through forwarding)"""
+    base_t, _ = _wrapper_types()
+    while isinstance(x, base_t):
+        x = x.__dict__["_obj"]
+    return x
+
+
+def _cell(f, name):
+    return f.__closure__[f.__code__.co_freevars.index(name)]
+
+
+def apply_mut(x, mut, held=None):
+    """change the state of the object inside `x` (a wrapper stack or a bare object).  via "w": through `x` itself
+    (forwarded call / forwarded method); via "d": directly on the bare object (`held` if the caller has it)."""
+    core = held if held is not None else core_of(x)
+    t = x if mut["via"] == "w" else core
+    op, name, val = mut["op"], mut.get("name"), mut.get("val")
+    if op == "call":
+        try:
+            t(0, bump=val)
+        except Exception:  # noqa: BLE001
+            pass        # the body may fail after its side effect (an attribute it reads was deleted): the state is what counts
+    elif op == "bump":
+        t.bump()
+    elif op == "put":
+        t.put(name, val)
+    elif op == "set":
+        setattr(core, name, val)
+    elif op == "del":
+        if name in getattr(core, "__dict__", {}):
+            delattr(core, name)
+    elif op == "cell":
+        if "n" in core.__code__.co_freevars:
+            _cell(core, "n").cell_contents = val
+        elif "seen" in core.__code__.co_freevars:
+            _cell(core, "seen").cell_contents.append(val)
+        else:
+            _cell(core, "state").cell_contents[name] = val
+    elif op == "glob":
+        core.__globals__["K"] = val
+    elif op == "defaults":
+        core.__defaults__ = (val,)
+    else:
+        raise ValueError(op)
+
+
+def replay_twin(case, log):
+    """a bare twin (never wrapped, never pickled) of the object, after the state changes of `log`"""
+    o = build_original(case)
+    for mut in log:
+        apply_mut(o, mut)
+    return o
+
+
+def twin_lines(case):
+    """history case: what the bare twins show at every line (the reference the property compares with)"""
+    live_log, logs = [], []
+    live = replay_twin(case, [])
+    twins = []
+    exp = [observe(live, case)]
+    for op in case["hist"]:
+        if op[0] == "M":
+            live_log.append(op[1])
+            apply_mut(live, op[1])
+            exp.append(observe(live, case))
+        elif op[0] == "P":
+            src_log = live_log if op[1] == "live" else logs[op[1]]
+            logs.append(list(src_log))
+            twins.append(replay_twin(case, logs[-1]))      # rebuilt from scratch: state at the time of the pickling
+            exp.append(observe(twins[-1], case))
+        elif op[0] == "O":
+            exp.append(observe(live if op[1] == "live" else twins[op[1]], case))
+        elif op[0] == "C":
+            logs[op[1]].append(op[2])
+            apply_mut(twins[op[1]], op[2])
+            exp.append(observe(twins[op[1]], case))
+        else:
+            raise ValueError(op)
+    return exp
+
+
+def hist_ok(hist):
+    """well-formed: copies are referenced only once they exist"""
+    n = 0
+    for op in hist:
+        if op[0] in ("P", "O"):
+            if op[1] != "live" and not (isinstance(op[1], int) and 0 <= op[1] < n):
+                return False
+            n += op[0] == "P"
+        elif op[0] == "C":
+            if not 0 <= op[1] < n:
+                return False
+        elif op[0] != "M":
+            return False
+    return True
+
+
+def drop_op(hist, i):
+    """the history without event i (a dropped pickling takes the events on its copy with it; later copies renumbered)"""
+    if hist[i][0] != "P":
+        return hist[:i] + hist[i + 1:]
+    k = sum(1 for op in hist[:i] if op[0] == "P")
+    out = list(hist[:i])
+    for op in hist[i + 1:]:
+        ref = op[1] if op[0] in ("P", "O", "C") else None
+        if isinstance(ref, int):
+            if ref == k:
+                if op[0] == "P":
+                    return None          # a copy of the dropped copy: give up on this candidate
+                continue
+            if ref > k:
+                op = [op[0], ref - 1] + list(op[2:])
+        out.append(op)
+    return out
 
 
 # ------------------------------------------------------------------ observation
@@ -249,14 +435,23 @@ class Prop(E2Prop):
     rule = ("case = (object, wrapper stack, round trips, attribute reads): functions (lambda, closure, 3-level nested, "
             "recursive, defined in a dynamic `__main__` / unimportable module) with attributes; callable (own or inherited "
             "__call__) and non-callable instances of local classes; wrapped classes with positional/keyword constructor "
-            "arguments; 1-2 wrapper layers with both keep_wrapper values; 1-3 round trips. Non-trivial = plain pickle of "
-            "the bare object fails (always, by construction) and the case has >= 1 round trip; distinct by full input.")
+            "arguments; 1-2 wrapper layers with both keep_wrapper values; 1-3 round trips. "
+            "History cases (about 45%): 2-9 events on ONE live wrapper - state change of the wrapped object through the "
+            "wrapper (call with a side effect, forwarded method with/without arguments) or directly (attribute set/del, "
+            "nonlocal counter cell, captured list/dict, module global of a dynamic module, __defaults__, call, method), "
+            "pickling of the live wrapper (up to 5 times) or of a received copy, re-observation of the live wrapper / an "
+            "earlier copy, state change of a received copy - on closures with mutable captured state, functions with "
+            "attributes, callable/non-callable instances and instances made through wrapped classes. "
+            "Non-trivial = plain pickle of the bare object fails (always, by construction) and the case has >= 1 round "
+            "trip / pickling; distinct by full input.")
     assumptions = [
         "cloudpickle's round trip of a bare object preserves its behaviour (hypothesis `Faithful rt`); the harness's objects are cloudpickle-serialisable",
         "attribute reads = the object's own data/method attributes; names every Python object answers itself (__class__, __dict__, __doc__, __module__, ...) are outside the property (theorem hypothesis `typeLevel a = false`) and are not generated",
         "instances of a class are callable iff a class of its MRO defines __call__ (hypothesis `hdc` of class_wrapper_instances)",
         "once an object has arrived unwrapped (keep_wrapper=False) further round trips are made with cloudpickle, as in the model's `trip`",
         "calls are compared on 5 sample argument lists (positional, defaulted, keyword-only); the model treats the call behaviour as one opaque token",
+        "histories: a state change keeps callable(obj) (hypothesis `StableOps`); the state of an object is what its own attributes, closure cells, captured containers, referenced module globals and __defaults__ hold - state shared at class level is not changed (cloudpickle re-uses a dynamic class inside one process)",
+        "attribute WRITES through the wrapper (`w.x = 1`) are not part of the statement (it speaks of reads and calls) and are not generated: the wrapper has no __setattr__, the write lands on the wrapper itself",
     ]
 
     # -- cases ---------------------------------------------------------------------------
@@ -294,6 +489,60 @@ class Prop(E2Prop):
             cs.append({"obj": dict(oc, callvia="none", k="class"), "layers": [["k", keep]], "trips": 2, "reads": ["p", "q"], "bump": [0, 1]})
         # 0 round trips (pure forwarding), no reads
         add({"k": "lambda", "a": 1, "b": 0, "attrs": {}}, [("n", 1)], 0, ())
+        return cs + self.hist_corpus()
+
+    def hist_corpus(self):
+        """histories on one wrapper: pickle / change / pickle again / look at the earlier copy / change a copy / ..."""
+        cs = []
+
+        def addh(obj, layers, hist, reads):
+            assert hist_ok(hist), hist
+            cs.append({"obj": obj, "layers": [list(l) for l in layers], "reads": list(reads), "hist": hist})
+        W, D = "w", "d"
+        for keep in (0, 1):
+            for k in STATE_FUNC_KINDS:
+                f = {"k": k, "a": 3, "b": 1, "attrs": {"tag": 7}}
+                addh(f, [("n", keep)],
+                     [["P", "live"], ["M", {"via": W, "op": "call", "val": 5}], ["P", "live"], ["O", 0],
+                      ["M", {"via": D, "op": "cell", "name": "n", "val": 4}], ["P", "live"], ["O", 1],
+                      ["C", 0, {"via": W, "op": "call", "val": 2}], ["O", "live"], ["P", 0], ["P", "live"]],
+                     ("tag", "nope"))
+                addh(f, [("n", keep)],
+                     [["P", "live"], ["M", {"via": D, "op": "call", "val": 5}], ["P", "live"],
+                      ["M", {"via": D, "op": "set", "name": "tag", "val": 8}], ["P", "live"],
+                      ["M", {"via": D, "op": "del", "name": "tag"}], ["P", "live"], ["O", 2]], ("tag", "nope"))
+            for k in DYN_KINDS + ("lambda", "recursive"):
+                f = {"k": k, "a": 2, "b": 4, "attrs": {}}
+                h = [["P", "live"], ["M", {"via": D, "op": "defaults", "val": 3}], ["P", "live"],
+                     ["M", {"via": D, "op": "set", "name": "meta", "val": 1}], ["P", "live"], ["O", 0], ["O", 1]]
+                if k in DYN_KINDS:
+                    h += [["M", {"via": D, "op": "glob", "val": 9}], ["P", "live"], ["O", 2],
+                          ["C", 3, {"via": D, "op": "glob", "val": 1}], ["O", "live"], ["P", "live"]]
+                addh(f, [("n", keep)], h, ("meta", "nope"))
+            for kind in ("inst", "class"):
+                for callvia in ("none", "own", "base", "objcall"):
+                    o = {"k": kind, "callvia": callvia, "a": 2, "b": 5, "attrs": {"tag": 4},
+                         "ctor": {"args": [6], "kw": {"q": 9}}}
+                    first = "k" if kind == "class" else "n"
+                    h = [["P", "live"], ["M", {"via": W, "op": "bump"}], ["P", "live"], ["O", 0],
+                         ["M", {"via": D, "op": "set", "name": "q", "val": 1}], ["P", "live"],
+                         ["M", {"via": W, "op": "put", "name": "extra", "val": 3}], ["P", "live"], ["O", 1], ["O", 2],
+                         ["C", 1, {"via": W, "op": "bump"}], ["O", "live"], ["P", 1], ["P", "live"],
+                         ["M", {"via": D, "op": "del", "name": "tag"}], ["P", "live"], ["O", 3]]
+                    if callvia in ("own", "base"):
+                        h = [["P", "live"], ["M", {"via": W, "op": "call", "val": 3}], ["P", "live"]] + \
+                            [[op[0], op[1] + 2] + op[2:] if isinstance(op[1], int) else op for op in h]
+                    addh(o, [(first, keep)], h, ("p", "q", "m", "tag", "extra", "nope"))
+            # two layers, every flag combination of the outer layer
+            for k1 in (0, 1):
+                addh({"k": "counter", "a": 1, "b": 0, "attrs": {}}, [("n", keep), ("n", k1)],
+                     [["P", "live"], ["M", {"via": W, "op": "call", "val": 1}], ["P", "live"], ["P", 1], ["O", 0]], ("nope",))
+                addh({"k": "class", "callvia": "own", "a": 1, "b": 1, "attrs": {}, "ctor": {"args": [2], "kw": {}}},
+                     [("k", keep), ("n", k1)],
+                     [["P", "live"], ["M", {"via": W, "op": "bump"}], ["P", "live"], ["P", 1], ["O", 0]], ("p", "m"))
+        # no pickling at all: only forwarding to the current state
+        addh({"k": "acc", "a": 1, "b": 0, "attrs": {}}, [("n", 1)],
+             [["M", {"via": W, "op": "call", "val": 2}], ["M", {"via": D, "op": "cell", "val": 3}], ["O", "live"]], ())
         return cs
 
     def reserved_cases(self):
@@ -307,7 +556,114 @@ class Prop(E2Prop):
                    "layers": [["n", 1]], "trips": 0, "reads": ["_obj"]})
         return cs
 
+    hist_share = 0.45
+
     def gen(self, rng, i):
+        if rng.random() < self.hist_share:
+            return self.gen_hist(rng, i)
+        return self.gen_chain(rng, i)
+
+    def gen_mut(self, rng, obj, allow_w=True):
+        """one state change fit for the object"""
+        k = obj["k"]
+        via = rng.choice("wd") if allow_w else "d"
+        names = [n for n in POOL if n != "nope"]
+        if k in FUNC_KINDS:
+            ops = ["set", "set", "del", "defaults"]
+            if k in STATE_FUNC_KINDS:
+                ops += ["call"] * 5 + ["cell"] * 3
+            if k in DYN_KINDS:
+                ops += ["glob"] * 4
+            op = rng.choice(ops)
+            if op == "call":
+                return {"via": via, "op": "call", "val": rng.randint(1, 9)}
+            if op == "cell":
+                return {"via": "d", "op": "cell", "name": rng.choice(["n", "kk", "z9"]), "val": rng.randint(1, 30)}
+            if op in ("glob", "defaults"):
+                return {"via": "d", "op": op, "val": rng.randint(-4, 30)}
+            own = list(obj.get("attrs", {}))
+            name = rng.choice(own) if own and rng.random() < 0.6 else rng.choice(names)
+            return {"via": "d", "op": op, "name": name, "val": rng.randint(0, 99)}
+        ops = ["bump"] * 4 + ["put"] * 3 + ["set"] * 3 + ["del"]
+        if obj["callvia"] in ("own", "base"):
+            ops += ["call"] * 4
+        op = rng.choice(ops)
+        if op == "bump":
+            return {"via": via, "op": "bump"}
+        if op == "call":
+            return {"via": via, "op": "call", "val": rng.randint(1, 9)}
+        own = list(obj.get("attrs", {})) + ["p", "q", "r"]
+        if op == "del":
+            return {"via": "d", "op": "del", "name": rng.choice([n for n in own if n != "p"])}
+        name = rng.choice(own) if rng.random() < 0.6 else rng.choice(names)
+        return {"via": via if op == "put" else "d", "op": op, "name": name, "val": rng.randint(0, 99)}
+
+    def gen_hist(self, rng, i):
+        a, b = rng.randint(-3, 9), rng.randint(-5, 20)
+        attrs = {n: rng.randint(0, 99) for n in rng.sample(["tag", "meta", "n", "extra", "obj", "keep_wrapper", "_obj_", "x_obj"],
+                                                          rng.choice([0, 1, 1, 2]))}
+        r = rng.random()
+        if r < 0.35:
+            obj = {"k": rng.choice(STATE_FUNC_KINDS), "a": a, "b": b, "attrs": attrs}
+        elif r < 0.5:
+            obj = {"k": rng.choice(FUNC_KINDS), "a": a, "b": b, "attrs": attrs}
+        else:
+            nargs = rng.choice([0, 1, 1, 2])
+            kw = {k: rng.randint(0, 9) for k in rng.sample(["p", "q", "r"][nargs:], rng.randint(0, 3 - nargs))}
+            if nargs == 0:
+                kw["p"] = rng.randint(0, 9)
+            obj = {"k": "inst" if r < 0.75 else "class", "callvia": rng.choice(["none", "own", "own", "base", "objcall"]),
+                   "a": a, "b": b, "attrs": attrs, "ctor": {"args": [rng.randint(0, 9) for _ in range(nargs)], "kw": kw}}
+        first = "k" if obj["k"] == "class" else "n"
+        layers = [[first, rng.randint(0, 1)]]
+        if rng.random() < 0.25:
+            layers.append(["n", rng.randint(0, 1)])
+        hist, ncopies, nlive = [], 0, 0
+        for _ in range(rng.randint(1, 7)):
+            x = rng.random()
+            if x < 0.35:
+                hist.append(["M", self.gen_mut(rng, obj)])
+            elif x < 0.65 and nlive < 5:
+                hist.append(["P", "live"])
+                ncopies += 1
+                nlive += 1
+            elif x < 0.72:
+                hist.append(["O", "live"])
+            elif ncopies == 0:
+                hist.append(["M", self.gen_mut(rng, obj)])
+            elif x < 0.82:
+                hist.append(["O", rng.randrange(ncopies)])
+            elif x < 0.91:
+                hist.append(["C", rng.randrange(ncopies), self.gen_mut(rng, obj)])
+            else:
+                hist.append(["P", rng.randrange(ncopies)])
+                ncopies += 1
+        if rng.random() < 0.8:
+            # make sure the same live wrapper is pickled, its object changed, and pickled again
+            if not any(op == ["P", "live"] for op in hist):
+                # the new first copy takes number 0, the others move up
+                hist = [["P", "live"]] + [[op[0], op[1] + 1] + op[2:] if op[0] in "POC" and isinstance(op[1], int) else op
+                                          for op in hist]
+            hist.append(["M", self.gen_mut(rng, obj)])
+            hist.append(["P", "live"])
+            if rng.random() < 0.4:
+                hist.append(["O", rng.randrange(sum(1 for op in hist if op[0] == "P"))])
+        if not hist_ok(hist):
+            hist = [op for op in hist if op[0] == "M" or op[1] == "live"]
+        names = list(attrs) + ["nope"]
+        if obj["k"] not in FUNC_KINDS:
+            names += ["p", "q", "r", "m"]
+        touched = []
+        for op in hist:
+            m = op[1] if op[0] == "M" else op[2] if op[0] == "C" else None
+            if m and m["op"] in ("set", "put", "del") and m["name"] not in touched:
+                touched.append(m["name"])
+        rest = [n for n in names if n not in touched]
+        reads = touched[:4] + rng.sample(rest, rng.randint(0, min(3, len(rest))))
+        rng.shuffle(reads)
+        return {"obj": obj, "layers": layers, "reads": reads, "hist": hist}
+
+    def gen_chain(self, rng, i):
         r = rng.random()
         a, b = rng.randint(-3, 9), rng.randint(-5, 20)
         attrs = {n: rng.randint(0, 99) for n in rng.sample(["tag", "meta", "n", "extra", "obj", "keep_wrapper", "_obj_", "x_obj"],
@@ -340,7 +696,46 @@ class Prop(E2Prop):
         return case
 
     # -- model ---------------------------------------------------------------------------
+    @staticmethod
+    def _head(line, case, track=True):
+        first = parse(line)
+        vals = first["reads"].split(",") if first["reads"] != "-" else []
+        attrs = [f"{name_token(n)}={v[1:]}" for n, v in zip(case["reads"], vals) if v.startswith("v")]
+        calltok = "0" if first["call"] == "TypeError" else first["call"]
+        h = f"{first['callable']} {calltok} "
+        if track:
+            h += ("0" if first["gen"] == "-" else "1") + " "
+        return h + ("/".join(attrs) or "-")
+
+    def _layer_tokens(self, case):
+        layers = []
+        for kind, keep in case["layers"]:
+            if kind == "n":
+                layers.append(f"n{keep}")
+            else:
+                layers.append(f"k{keep}{0 if case['obj']['callvia'] == 'none' else 1}")
+        return ",".join(layers)
+
+    def model_lines_hist(self, case):
+        """the events, with the state of the bare twin (observed on bare objects only) after every state change"""
+        exp = twin_lines(case)
+        reads = ",".join(name_token(n) for n in case["reads"]) or "-"
+        lines = [f"hnew {self._head(exp[0], case)} {self._layer_tokens(case)} {reads}"]
+        for op, e in zip(case["hist"], exp[1:]):
+            if op[0] == "M":
+                lines.append(f"hmut {self._head(e, case, track=False)}")
+            elif op[0] == "P":
+                lines.append(f"hpickle {op[1]}")
+            elif op[0] == "O":
+                lines.append(f"hobs {op[1]}")
+            else:
+                lines.append(f"hcmut {op[1]} {self._head(e, case, track=False)}")
+        return lines
+
     def model_lines(self, case):
+        if "hist" in case:
+            return self.model_lines_hist(case)
+
         def head_of(k):
             first = parse(observe(original_at(case, k), case))
             vals = first["reads"].split(",") if first["reads"] != "-" else []
@@ -361,7 +756,41 @@ class Prop(E2Prop):
         return lines
 
     # -- implementation ------------------------------------------------------------------
+    def impl_hist(self, case):
+        import cloudpickle
+        base_t, _ = _wrapper_types()
+
+        def roundtrip(x):
+            return pickle.loads(pickle.dumps(x)) if isinstance(x, base_t) else cloudpickle.loads(cloudpickle.dumps(x))
+        try:
+            live, held = build_wrapped2(case)
+        except Exception as e:  # noqa: BLE001
+            return [f"ERR:wrap:{type(e).__name__}"]
+        out, got = [observe(live, case)], []
+        for op in case["hist"]:
+            stage = "pickle" if op[0] == "P" else "mutate" if op[0] in "MC" else "observe"
+            try:
+                if op[0] == "M":
+                    apply_mut(live, op[1], held)
+                    x = live
+                elif op[0] == "P":
+                    got.append(roundtrip(live if op[1] == "live" else got[op[1]]))
+                    x = got[-1]
+                elif op[0] == "O":
+                    x = live if op[1] == "live" else got[op[1]]
+                else:
+                    apply_mut(got[op[1]], op[2])
+                    x = got[op[1]]
+                stage = "observe"
+                out.append(observe(x, case))
+            except Exception as e:  # noqa: BLE001
+                out.append(f"ERR:{stage}:{type(e).__name__}")
+                break
+        return out
+
     def impl(self, case):
+        if "hist" in case:
+            return self.impl_hist(case)
         import cloudpickle
         base_t, _ = _wrapper_types()
         out = [observe(build_original(case), case)]
@@ -385,10 +814,58 @@ class Prop(E2Prop):
         return out
 
     # -- oracle (from the statement of C16; does not use the model) -------------------------
+    def oracle_hist(self, case, out):
+        """every copy behaves like the original at the time of its pickling (then follows its own changes only),
+        the live wrapper like the object in its current state; wrapped iff keep_wrapper"""
+        if len(out) != len(case["hist"]) + 1:
+            return "missing lines"
+        exp = twin_lines(case)                      # bare twins, never wrapped, never pickled
+        keeps = [int(k) for _, k in case["layers"]][::-1]
+        kept = [f for f in keeps if f]
+        nmut, born, ncopies = 0, [], 0              # state changes of the original so far; per copy: (source, nmut at its pickling)
+        for i, (line, e) in enumerate(zip(out, exp)):
+            op = case["hist"][i - 1] if i else ["O", "live"]
+            if op[0] == "M":
+                nmut += 1
+                what = f"the live wrapper after state change #{nmut} ({op[1]['op']}, via {'the wrapper' if op[1]['via'] == 'w' else 'the object'})"
+                is_live = True
+            elif op[0] == "P":
+                born.append((op[1], nmut))
+                what = (f"copy #{ncopies} = pickling of " + ("the live wrapper" if op[1] == "live" else f"copy #{op[1]}") +
+                        (f" after {nmut} state change(s) of the original and {sum(1 for b in born[:-1] if b[0] == 'live')} earlier pickling(s) of it"
+                         if op[1] == "live" else ""))
+                ncopies += 1
+                is_live = False
+            elif op[0] == "O":
+                is_live = op[1] == "live"
+                what = "the live wrapper" if is_live else (f"copy #{op[1]} looked at again ({nmut - born[op[1]][1]} state change(s) of the "
+                                                           f"original since its pickling)")
+            else:
+                is_live = False
+                what = f"copy #{op[1]} after a state change of its own"
+            st, want = parse(line), parse(e)
+            ls = [] if st["layers"] == "-" else st["layers"].split("/")
+            flags = [int(l.split(":")[1]) for l in ls]
+            if flags != (keeps if is_live else kept):
+                return f"{what}: wrapper flags {flags}, keep_wrapper demands {keeps if is_live else kept}"
+            ref = "the object's in its current state" if is_live else "the original's at the time of that pickling"
+            if st["callable"] != want["callable"]:
+                return f"{what}: callable()={st['callable']}, {ref} is {want['callable']}"
+            if st["call"] != want["call"]:
+                return f"{what}: results of the sample calls differ from {ref}"
+            r0 = want["reads"].split(",") if want["reads"] != "-" else []
+            r1 = st["reads"].split(",") if st["reads"] != "-" else []
+            for name, x0, x1 in zip(case["reads"], r0, r1):
+                if x0 != x1:
+                    return f"{what}: attribute {name!r} reads {x1}, {ref} reads {x0}"
+        return None
+
     def oracle(self, case, out):
         for line in out:
             if line.startswith("ERR") or line.startswith("HARNESS-EXC"):
-                return f"the wrapper did not survive construction / a plain-pickle round trip: {line}"
+                return f"the wrapper did not survive construction / a plain-pickle round trip / forwarding a call: {line}"
+        if "hist" in case:
+            return self.oracle_hist(case, out)
         if len(out) != case["trips"] + 2:
             return "missing stages"
         orig = parse(out[0])
@@ -487,10 +964,36 @@ class Prop(E2Prop):
 
     # -- evidence -------------------------------------------------------------------------
     def nontrivial(self, case, out):
+        if "hist" in case:
+            return any(op[0] == "P" for op in case["hist"]) and not any(l.startswith("ERR") for l in out)
         return case["trips"] >= 1 and not any(l.startswith("ERR") for l in out)
 
     def classify(self, case, out):
         o = case["obj"]
+        if "hist" in case:
+            h = case["hist"]
+            ks = ["kind=" + o["k"], "hist", "hist:layers=" + "".join(f"{a}{b}" for a, b in case["layers"])]
+            if o["k"] not in FUNC_KINDS:
+                ks.append("hist:callvia=" + o["callvia"])
+            nlive = sum(1 for op in h if op == ["P", "live"])
+            ks.append(f"hist:picklings-of-live={nlive}")
+            seenp = seenm = pmp = False
+            for op in h:
+                if op == ["P", "live"]:
+                    pmp = pmp or (seenp and seenm)
+                    seenp = True
+                elif op[0] == "M" and seenp:
+                    seenm = True
+                m = op[1] if op[0] == "M" else op[2] if op[0] == "C" else None
+                if m:
+                    ks.append(f"hist:{'copy-' if op[0] == 'C' else ''}mut={m['op']}/{m['via']}")
+            if pmp:
+                ks.append("hist:pickle-change-pickle")
+            if any(op[0] == "P" and op[1] != "live" for op in h):
+                ks.append("hist:copy-pickled-again")
+            if any(op[0] == "O" and op[1] != "live" for op in h):
+                ks.append("hist:earlier-copy-looked-at-again")
+            return sorted(set(ks))
         ks = ["kind=" + o["k"], f"trips={case['trips']}", "layers=" + "".join(f"{a}{b}" for a, b in case["layers"])]
         if o["k"] not in FUNC_KINDS:
             ks.append("callvia=" + o["callvia"])
@@ -503,6 +1006,17 @@ class Prop(E2Prop):
         return ks
 
     def shrink_candidates(self, case):
+        if "hist" in case:
+            h = case["hist"]
+            for i in range(len(h) - 1, -1, -1):
+                c = drop_op(h, i)
+                if c is not None and hist_ok(c):
+                    yield dict(case, hist=c)
+            if len(case["layers"]) > 1:
+                yield dict(case, layers=case["layers"][:1])
+            for i in range(len(case["reads"])):
+                yield dict(case, reads=case["reads"][:i] + case["reads"][i + 1:])
+            return
         if case["trips"] > 0:
             yield dict(case, trips=case["trips"] - 1)
         if len(case["layers"]) > 1:
